@@ -214,6 +214,8 @@ class Interp:
     def default_root(self, root, state=None, lazy=False):
         L = self.layout
         if root[0] == "edge":
+            if state is not None and "__edge_default__" in state.heap:
+                return state.heap["__edge_default__"]
             return adt(L.edgeinfo, {0: tuple(self.typed(TOP, f["ty"]) for f in L.edge_fields)})
         if root[0] == "ghost":
             return BOOL_TOP
@@ -638,8 +640,13 @@ class Interp:
                     if len(a[2]) == 1 and len(b[2]) == 1:
                         return boolean([(a[2] == b[2]) == (op == "Eq")])
                 return BOOL_TOP
+            known = a[0] == "int" and b[0] == "int" and a[1] is not None and b[1] is not None
             if "WithOverflow" in op:
+                if known and op.startswith("Add") and a[1] + b[1] < 2 ** 31:
+                    return adt("tuple", {0: (("int", a[1] + b[1]), FALSE)})
                 return adt("tuple", {0: (("int", None), BOOL_TOP)})
+            if known and op in ("Add", "AddUnchecked") and a[1] + b[1] < 2 ** 31:
+                return ("int", a[1] + b[1])
             return ("int", None)
         if k == "unop":
             v = self.eval_operand(state, frame, r["o"])
